@@ -473,3 +473,8 @@ def check(run):
     run.rule('R2', r2_ownership, 'only _open_file opens files; only __call__ calls it; configured paths written only by __init__', floor=9)
     run.rule('R3', r3_range, 'range conservation in _set_range and _BoundedFile.read', floor=28)
     run.rule('R4', r4_status, '304 / 206 / 200 wiring in StaticRoute.__call__', floor=9)
+    # which static route serves a path: most recently registered matching prefix (shared with C02)
+    from . import c02 as _c02
+
+    run.rule('R5', _c02.r2_recency, 'static routes are consulted newest-first (head insertion; shared with C02 R2)', floor=6)
+    run.rule('R6', _c02.r7_static_prefix, 'static route matching uses only the normalised prefix (shared with C02 R7)', floor=1)
